@@ -237,9 +237,19 @@ inductive Payload
   | expo (sumq : Int) (dp : ExpoDP)
 deriving Repr
 
+/-- metricdata.Exemplar as handed to the exporter: value (quarter units), the attributes a View's filter dropped (in
+slice order, values already emitted), trace and span id as lower-case hex text -/
+structure Exemplar where
+  q : Int
+  attrs : List KV
+  traceId : Bytes
+  spanId : Bytes
+deriving Repr
+
 structure Point where
   attrs : List KV      -- in attribute.Set iteration order
   payload : Payload
+  exemplars : List Exemplar := []
 deriving Repr
 
 structure Inst where
@@ -271,6 +281,17 @@ inductive OutPayload
   | native (sumq : Int) (n : Native)
 deriving Repr, DecidableEq
 
+/-- where an exposed exemplar sits: on the counter, on the classic bucket with this upper bound, or on an appended
+`+Inf` bucket -/
+inductive Slot | counter | bucket (bound : Int) | inf
+deriving Repr, DecidableEq
+
+structure ExOut where
+  slot : Slot
+  q : Int
+  labels : List KV     -- sorted by name
+deriving Repr, DecidableEq
+
 /-- one prometheus.Metric sent on the channel -/
 structure Emitted where
   name : Bytes
@@ -278,6 +299,7 @@ structure Emitted where
   typ : MType
   labels : List KV        -- in Desc order (variable labels); Gather sorts them by name
   payload : OutPayload
+  ex : List ExOut := []
 deriving Repr
 
 /-- model.LabelName.IsValid + reserved prefix (checkLabelName) -/
@@ -312,15 +334,82 @@ def descOK (legacy : Bool) (name : Bytes) (labels : List KV) : Bool :=
 def scopeNameLabel : Bytes := b "otel_scope_name"
 def scopeVersionLabel : Bytes := b "otel_scope_version"
 
+def insertKV (x : KV) : List KV → List KV
+  | [] => [x]
+  | y :: ys => if bytesLe x.1 y.1 then x :: y :: ys else y :: insertKV x ys
+
+/-- label pairs sorted by name (MakeLabelPairs + LabelPairSorter) -/
+def sortKV : List KV → List KV
+  | [] => []
+  | x :: xs => insertKV x (sortKV xs)
+
+/-! ### exemplars (addExemplars, attributesToLabels; client_golang NewMetricWithExemplars / newExemplar by contract) -/
+
+/-- `labels[k] = v` on a Go map kept as an association list -/
+def setLabel (m : List KV) (k v : Bytes) : List KV :=
+  match m with
+  | [] => [(k, v)]
+  | (k', v') :: rest => if k' == k then (k', v) :: rest else (k', v') :: setLabel rest k v
+
+/-- attributesToLabels (keys always go through model.EscapeName, later attributes overwrite earlier ones), then
+trace_id / span_id overwrite -/
+def exemplarLabels (esc : Bytes → Bytes) (e : Exemplar) : List KV :=
+  setLabel (setLabel (e.attrs.foldl (fun m kv => setLabel m (esc kv.1) kv.2) []) (b "trace_id") e.traceId) (b "span_id") e.spanId
+
+def labelRunes (labels : List KV) : Nat := (labels.map fun kv => Utf8.runeCount kv.1 + Utf8.runeCount kv.2).sum
+
+/-- newExemplar accepts: every label name passes checkLabelName, every value is valid UTF-8, and names+values hold at
+most ExemplarMaxRunes = 128 runes -/
+def exemplarOK (legacy : Bool) (labels : List KV) : Bool :=
+  labels.all (fun kv => labelNameOK legacy kv.1 && Utf8.validString kv.2) && decide (labelRunes labels ≤ 128)
+
+/-- addExemplars: `none` = the metric is sent without exemplars (no exemplars, or NewMetricWithExemplars refused one of
+them: all or nothing); `some` = the validated exemplars in order -/
+def promExemplars (esc : Bytes → Bytes) (legacy : Bool) (exs : List Exemplar) : Option (List (Int × List KV)) :=
+  if exs.isEmpty then none
+  else
+    let ls := exs.map fun e => (e.q, exemplarLabels esc e)
+    if ls.all (fun l => exemplarOK legacy l.2) then some ls else none
+
+/-- withExemplarsMetric.Write for histograms: first bucket whose upper bound is ≥ the value, else a new +Inf bucket -/
+def bucketSlot (bounds : List Int) (q : Int) : Slot :=
+  match bounds.find? (fun bd => decide (bd ≥ q)) with
+  | some bd => .bucket bd
+  | none => .inf
+
+def placeHist (bounds : List Int) (exs : List (Int × List KV)) : List ExOut :=
+  (bounds.filterMap fun bd =>
+    ((exs.filter fun e => bucketSlot bounds e.1 == Slot.bucket bd).getLast?).map fun e => ⟨.bucket bd, e.1, sortKV e.2⟩) ++
+  ((exs.filter fun e => bucketSlot bounds e.1 == Slot.inf).map fun e => ⟨.inf, e.1, sortKV e.2⟩)
+
+/-- the exemplars exposed on one series: monotonic counters carry the last one, explicit-bucket histograms one per
+bucket; gauges, non-monotonic sums and native histograms none -/
+def exemplarsOut (esc : Bytes → Bytes) (legacy : Bool) (typ : MType) (payload : Payload) (exs : List Exemplar) : List ExOut :=
+  match payload with
+  | .num _ =>
+    if typ == MType.counter then
+      match promExemplars esc legacy exs with
+      | some ls => match ls.getLast? with
+        | some e => [⟨.counter, e.1, sortKV e.2⟩]
+        | none => []
+      | none => []
+    else []
+  | .hist _ _ bounds _ =>
+    match promExemplars esc legacy exs with
+    | some ls => placeHist bounds ls
+    | none => []
+  | .expo _ _ => []
+
 /-- add*Metric for one data point: `none` = error handled, nothing sent -/
 def emitPoint (esc : Bytes → Bytes) (legacy : Bool) (name help : Bytes) (typ : MType) (extra : List KV) (p : Point) :
     Option Emitted :=
   let labels := getAttrs esc legacy p.attrs ++ extra
   if !descOK legacy name labels then none
   else match p.payload with
-    | .num q => some ⟨name, help, typ, labels, .num q⟩
-    | .hist count sumq bounds counts => some ⟨name, help, typ, labels, .hist count sumq (histBuckets bounds counts)⟩
-    | .expo sumq dp => (expoToNative dp).map fun n => ⟨name, help, typ, labels, .native sumq n⟩
+    | .num q => some ⟨name, help, typ, labels, .num q, exemplarsOut esc legacy typ p.payload p.exemplars⟩
+    | .hist count sumq bounds counts =>
+      some ⟨name, help, typ, labels, .hist count sumq (histBuckets bounds counts), exemplarsOut esc legacy typ p.payload p.exemplars⟩
+    | .expo sumq dp => (expoToNative dp).map fun n => ⟨name, help, typ, labels, .native sumq n, []⟩
 
 /-- the `for _, m := range scopeMetrics.Metrics` loop -/
 def collectInsts (esc : Bytes → Bytes) (cfg : Cfg) (extra : List KV) :
@@ -343,7 +432,7 @@ def scopeInfoMetric (esc : Bytes → Bytes) (legacy : Bool) (s : Scope) : Option
   -- attribute.NewSet sorts: otel_scope_name < otel_scope_version
   let labels := getAttrs esc legacy [(scopeNameLabel, s.name), (scopeVersionLabel, s.version)]
   if descOK legacy (b "otel_scope_info") labels then
-    some ⟨b "otel_scope_info", b "Instrumentation Scope metadata", .gauge, labels, .num 4⟩
+    some ⟨b "otel_scope_info", b "Instrumentation Scope metadata", .gauge, labels, .num 4, []⟩
   else none
 
 def collectScopes (esc : Bytes → Bytes) (sc : Scenario) (resKV : List KV) : List Fam → List Scope → List Emitted
@@ -368,7 +457,7 @@ def collect (esc : Bytes → Bytes) (sc : Scenario) : List Emitted :=
   let tlabels := getAttrs esc sc.cfg.legacy sc.res
   let target : List Emitted :=
     if !sc.noTarget && descOK sc.cfg.legacy (b "target_info") tlabels then
-      [⟨b "target_info", b "Target metadata", .gauge, tlabels, .num 4⟩]
+      [⟨b "target_info", b "Target metadata", .gauge, tlabels, .num 4, []⟩]
     else []
   let resKV := if sc.resConst then getAttrs esc sc.cfg.legacy sc.res else []
   target ++ collectScopes esc sc resKV [] sc.scopes
@@ -376,6 +465,7 @@ def collect (esc : Bytes → Bytes) (sc : Scenario) : List Emitted :=
 structure Series where
   labels : List KV
   payload : OutPayload
+  ex : List ExOut := []
 deriving Repr, DecidableEq
 
 structure Family where
@@ -385,20 +475,11 @@ structure Family where
   series : List Series
 deriving Repr
 
-def insertKV (x : KV) : List KV → List KV
-  | [] => [x]
-  | y :: ys => if bytesLe x.1 y.1 then x :: y :: ys else y :: insertKV x ys
-
-/-- label pairs sorted by name (MakeLabelPairs + LabelPairSorter) -/
-def sortKV : List KV → List KV
-  | [] => []
-  | x :: xs => insertKV x (sortKV xs)
-
 /-- Registry.Gather bookkeeping for an unchecked collector (processMetric): first metric of a name fixes help and
 type; a later one with another help/type, or with label values already seen, is an error and is skipped. -/
 def gatherStep (acc : Bool × List Family) (m : Emitted) : Bool × List Family :=
   let (err, fams) := acc
-  let s : Series := ⟨sortKV m.labels, m.payload⟩
+  let s : Series := ⟨sortKV m.labels, m.payload, m.ex⟩
   match fams.find? (fun f => f.name == m.name) with
   | none => (err, fams ++ [⟨m.name, m.typ, m.help, [s]⟩])
   | some f =>
